@@ -78,6 +78,44 @@ RUNS += [
          quick=dict(explore=1000000, random=(200, 40)), thorough=dict(explore=1000000, random=(3000, 100))),
 ]
 
+RUNS += [
+    # state broadcast: cfg = slots, shared, max handles, max sends
+    dict(name="state-local", prim="state", cfg="2 0 0 2", flavours=["local", "sync"],
+         quick=dict(explore=1000000, random=(200, 60)), thorough=dict(explore=1000000, random=(3000, 150)), random_cfg="6 0 0 8"),
+    dict(name="state-shared", prim="state", cfg="2 1 2 2", flavours=["shared"],
+         quick=dict(explore=1000000, random=(200, 60)), thorough=dict(explore=1000000, random=(3000, 150)), random_cfg="6 1 3 8"),
+    dict(name="state-k3", prim="state", cfg="3 0 0 3", flavours=["local"],
+         quick=dict(explore=0), thorough=dict(explore=4000000), corpus=False),
+    # timer: cfg = slots, distinct deadlines, max time
+    dict(name="timer-k3", prim="timer", cfg="3 2 2", flavours=["local", "sync"],
+         quick=dict(explore=1000000, random=(200, 80)), thorough=dict(explore=1000000, random=(3000, 300)), random_cfg="12 6 8"),
+    dict(name="timer-k4", prim="timer", cfg="4 2 2", flavours=["local"],
+         quick=dict(explore=2000000), thorough=dict(explore=2000000)),
+    dict(name="timer-k4-d3", prim="timer", cfg="4 3 3", flavours=["local", "sync"],
+         quick=dict(explore=0), thorough=dict(explore=8000000), corpus=False),
+]
+STATE_RUNS = ["state-local", "state-shared", "state-k3"]
+TIMER_RUNS = ["timer-k3", "timer-k4", "timer-k4-d3"]
+# ring buffers: cfg = kind (0 array, 1 fixed heap, 2 growing heap), capacity, debug assertions, malformed calls too
+RB_RUNS = []
+for kind in (0, 1, 2):
+    for cap in (0, 1, 2, 3, 4):
+        for mal in (0, 1):
+            name = "rb-%d-%d-%d" % (kind, cap, mal)
+            RUNS.append(dict(name=name, prim="ringbuf", cfg="%d %d 1 %d" % (kind, cap, mal), flavours=["local"],
+                             quick=dict(explore=100000), thorough=dict(explore=100000), corpus=False))
+            RB_RUNS.append(name)
+RUNS += [
+    dict(name="dlist-5", prim="dlist", cfg="5", flavours=["local"], quick=dict(explore=1000000, random=(200, 60)),
+         thorough=dict(explore=1000000, random=(3000, 200)), random_cfg="9"),
+    dict(name="dlist-6", prim="dlist", cfg="6", flavours=["local"], quick=dict(explore=0), thorough=dict(explore=3000000), corpus=False),
+    dict(name="pheap-6", prim="pheap", cfg="0 1 2 0 1 2", flavours=["local"], quick=dict(explore=1000000, random=(200, 60)),
+         thorough=dict(explore=1000000, random=(3000, 200)), random_cfg="3 1 2 0 1 2 2 1 0 3"),
+    dict(name="pheap-eq", prim="pheap", cfg="1 1 1 1 1", flavours=["local"], quick=dict(explore=1000000), thorough=dict(explore=1000000)),
+    dict(name="pheap-7", prim="pheap", cfg="0 1 2 0 1 2 1", flavours=["local"], quick=dict(explore=0), thorough=dict(explore=3000000), corpus=False),
+]
+L0_RUNS = ["dlist-5", "dlist-6", "pheap-6", "pheap-eq", "pheap-7"]
+
 MPMC_RUNS = ["mpmc-c0", "mpmc-c1", "mpmc-c2", "mpmc-c1-22", "mpmc-c2-22", "mpmc-shared-c0", "mpmc-shared-c1", "mpmc-shared-c1-h3"]
 ONESHOT_RUNS = ["oneshot-local", "bcast-local", "oneshot-shared", "bcast-shared"]
 MUTEX_RUNS = ["mutex-k3-unfair", "mutex-k3-fair", "mutex-k4-unfair", "mutex-k4-fair"]
@@ -130,10 +168,74 @@ PROPS = {
         level_text="Theorem over all fair-mode histories: the fair-order monitor holds (a request n>0 completes only as the oldest pending one or with nobody pending; n=0 completes at once), the queue equals the trace-recomputed arrival order, cancel = filter. Correspondence on every result of the fair state spaces.",
         level_note="Kernel-checked on the Gallina model; tie to the code by differential execution.",
     ),
+    "C08": dict(
+        level="proof", coq_files=["Properties/C08.v"],
+        theorems={"Properties/C08.v": ["C08_conservation", "C08_in_flight", "C08_drops_only_where_allowed"]},
+        runs=MPMC_RUNS, keys=["r", "v", "p"], monitor=dict(id=8, runs=["mpmc-c0", "mpmc-c1", "mpmc-shared-c1"]),
+        assumptions=[SCHED_NOTE, "values uniquely tagged"],
+        level_text="Theorem over all histories (any number of send/receive futures, any capacity incl. 0, close, cancel, try-ops, shared handle drops): the conservation monitor over the observable trace holds - every observed movement (delivered / handed back / destroyed) concerns a value still in flight and removes it, nothing is left after teardown; the in-flight set of the trace equals buffer + values inside live send futures; values are destroyed only with their send future, by the last receiver's clear(), or at teardown. Correspondence on results, per-step value movements (drop-counting tagged payloads, double drops detected) and closed/len probes, for ArrayBuf, FixedHeapBuf, GrowingHeapBuf, borrowed and shared.",
+        level_note="Tie to the code by differential execution on exhaustive k=2x2 (caps 0..2) spaces + random histories. " + SCHED_NOTE,
+    ),
+    "C09": dict(
+        level="proof", coq_files=["Properties/C09.v"],
+        theorems={"Properties/C09.v": ["C09_fifo", "C09_refines_queue", "C09_capacity"]},
+        runs=MPMC_RUNS, keys=["r", "v", "p"], monitor=dict(id=9, runs=["mpmc-c0", "mpmc-c1", "mpmc-c2"]),
+        assumptions=[SCHED_NOTE, "values uniquely tagged"],
+        level_text="Theorem over all histories: the reference-FIFO monitor holds on the trace (values received in the order their sends took effect, cancelled senders anywhere; accepted-but-unreceived <= capacity; capacity 0: a send completes only after a receiver took the value); refinement: buffer ++ parked sender values = the reference FIFO while open; capacity invariant on the state.",
+        level_note="Per-producer order under real thread schedules follows only with the atomicity assumptions. " + SCHED_NOTE,
+    ),
+    "C10": dict(
+        level="proof", coq_files=["Properties/C10.v"],
+        theorems={"Properties/C10.v": ["C10_recv_woken_trace", "C10_recv_woken", "C10_sender_woken", "C10_after_close_all_woken", "C10_progress", "C10_sender_progress"]},
+        runs=MPMC_RUNS, keys=["r", "w", "p"], monitor=dict(id=10, runs=["mpmc-c0", "mpmc-c1", "mpmc-shared-c0"]),
+        assumptions=[SCHED_NOTE],
+        level_text="Theorem over all histories: after every call, value available and receivers pending => some pending receiver woken since its last poll through that poll's waker (monitor on the trace + state-level version); accepted sender woken; all pending futures woken after close; progress lemmas (unqueued receiver polled while a value is available gets the oldest value; completed sender polls Ok). Correspondence on results and ordered wake lists.",
+        level_note="'Never deadlock' is the safety invariant + one-step progress, not a temporal theorem. " + SCHED_NOTE,
+    ),
     "C11": dict(
-        level="proof", coq_files=["Properties/C11.v"],
-        runs=MPMC_RUNS + ONESHOT_RUNS, keys=["r", "w", "p", "v"], assumptions=[SCHED_NOTE],
-        level_text="(in progress)", level_note="(in progress)",
+        level="proof", coq_files=["Properties/C11.v", "Properties/C11b.v", "Properties/C13.v"],
+        theorems={"Properties/C11.v": ["C11_close_status", "C11_closed_monotone", "C11_send_after_close", "C11_close_wakes_all", "C11_drain_then_none", "C11_implicit_close", "C11_last_receiver_clears"],
+                  "Properties/C11b.v": ["C11b_close_status", "C11b_closed_monotone", "C11b_implicit_close", "C11b_refuted_pinned"],
+                  "Properties/C13.v": ["C11c_close_status", "C11c_closed_monotone", "C11c_implicit_close"]},
+        runs=MPMC_RUNS + ONESHOT_RUNS + STATE_RUNS, keys=["r", "w", "p", "v"], assumptions=[SCHED_NOTE],
+        monitor=dict(id=11, runs=["bcast-shared", "oneshot-shared", "state-shared"]),
+        level_text="Theorems for mpmc, oneshot, oneshot-broadcast and state-broadcast models: close is permanent/idempotent (NewlyClosed once), sends after close fail returning the caller's value, every queued future is woken and unlinked, receivers drain the buffer in order then None/Closed; implicit close: for every interleaving of the atomic sections of clone/drop of any number of handles, without explicit close the channel is closed iff a side has no handle left (never while both sides have one); last mpmc receiver clears the buffer; plus a machine-checked refutation for the pre-repair broadcast receiver (finding D3). Correspondence on close status, results, wakes, value movements over all clone/drop orders of up to 3 handles.",
+        level_note="Handle-count atomics' memory orderings are assumed; interleavings are of whole atomic sections. " + SCHED_NOTE,
+    ),
+    "C12": dict(
+        level="proof", coq_files=["Properties/C12.v"],
+        theorems={"Properties/C12.v": ["C12_protocol", "C12_single_send", "C12_wakes_all", "C12_queue_exact"]},
+        runs=ONESHOT_RUNS, keys=["r", "w", "p", "v"], monitor=dict(id=12, runs=ONESHOT_RUNS), assumptions=[SCHED_NOTE],
+        level_text="Theorem over all histories, single-consumer and broadcast, borrowed and shared: the oneshot monitor holds on the trace (first send on an open channel succeeds, all others fail returning their value; single consumer: exactly one receive yields the value, others None; broadcast: every completion after the send yields it, None only if closed without value; receivers pending at send/close woken through latest wakers).",
+        level_note=SCHED_NOTE,
+    ),
+    "C13": dict(
+        level="proof", coq_files=["Properties/C13.v"],
+        theorems={"Properties/C13.v": ["C13_protocol", "C13_send", "C13_ids_bounded", "C13_wakes_all", "C13_queue_exact", "C13_after_close"]},
+        runs=STATE_RUNS, keys=["r", "w", "p", "v"], monitor=dict(id=13, runs=["state-local", "state-shared"]), assumptions=[SCHED_NOTE],
+        level_text="Theorem over all histories: the state-broadcast monitor holds on the trace (ids strictly increase, sends rejected only when closed or at u64::MAX and return their value; receive/try_receive complete only with the latest state and its id and only if newer than requested; None only after close for up-to-date receivers; waiting receivers woken by the next send or close). The u64::MAX arm is reached in the correspondence through a cfg-guarded hook presetting the id.",
+        level_note=SCHED_NOTE,
+    ),
+    "C15": dict(
+        level="proof", coq_files=["Properties/C15.v"],
+        theorems={"Properties/C15.v": ["C15_protocol", "C15_heap_exact", "C15_pheap_insert", "C15_pheap_remove", "C15_pheap_min", "C15_delay_saturating"]},
+        runs=TIMER_RUNS, keys=["r", "w", "p"], monitor=dict(id=15, runs=["timer-k3", "timer-k4"]), assumptions=[SCHED_NOTE, "Clock::now() is monotone"],
+        level_text="Theorem over all histories (any number of timers, duplicate deadlines): the timer monitor holds on the trace (never early; check_expirations wakes all and only the due registered futures through latest wakers in non-decreasing deadline order; next_expiration = min registered deadline; delay saturates); tree-level pairing heap theorems (permutation of elements, heap order preserved, root = minimum); the heap holds exactly the registered futures. The model reproduces the crate's heap SHAPE: correspondence compares the pre-order heap snapshot (hook), results, probes and ordered wakes on every transition of k=4 spaces.",
+        level_note="Wake order among equal deadlines is compared exactly (it is determined by the pairing heap's tie-breaking, which the model reproduces). " + SCHED_NOTE,
+    ),
+    "C19": dict(
+        level="proof", coq_files=["Properties/C19.v"],
+        theorems={"Properties/C19.v": ["C19_refines_fifo", "C19_accessors", "C19_drop_exact", "C19_no_ub", "C19_array_indices"]},
+        runs=RB_RUNS, keys=["r", "v", "p"],
+        level_text="Theorems for ArrayBuf (indices + MaybeUninit slots), FixedHeapBuf and GrowingHeapBuf models, every capacity incl. 0: refinement to a FIFO list, accessors exact, drop returns exactly the stored elements once, no assertion failure / uninitialised read / overwrite under the can_push/is_empty discipline, index invariant with wrap-around. Correspondence: exhaustive push/pop/drop sequences for capacities 0..4 with drop-counting elements, plus a malformed stream whose expected observable is a panic.",
+        level_note="VecDeque is trusted (modelled as a list). Miri is not used (different technique family).",
+    ),
+    "C20": dict(
+        level="proof", coq_files=["Properties/C20.v"],
+        theorems={"Properties/C20.v": ["C20_list_empty", "C20_list_refines_deque", "C20_list_reachable", "C20_heap_empty", "C20_heap_refines_tree", "C20_heap_reachable"]},
+        runs=L0_RUNS, keys=["r", "q"],
+        level_text="Pointer-level models of the intrusive list and pairing heap (one Gallina assignment per Rust statement, debug_asserts as outcomes) proved to refine a deque / the tree-level pairing heap: every operation under its documented precondition returns the specified value, keeps all links mutually consistent (representation predicate), leaves removed nodes and non-members with cleared links and trips no assertion; remove(non-member) returns false unchanged. Correspondence compares EVERY link of EVERY node (hook re-export of the private modules) after every operation on all sequences over 5 list nodes / 6 heap nodes with keys from a 3-value set.",
+        level_note="Rust aliasing-model UB (stacked borrows) is not expressible in the model.",
     ),
     "C16": dict(
         level="proof", coq_files=["Properties/C16.v"],
